@@ -374,6 +374,78 @@ class WiringPart(Part):
         return res
 
 
+class SecondAnonymizer(Part):
+    name = "after_an_anonymizer_with_other_lists"
+    desc = "every ordered pair of (prefix list, network list) configurations with one salt and host-bit count, used one after the other in one process on the same text: the second one's listed prefixes still hold"
+
+    MENU = [(None, None), ([], None), (["10.0.0.0/8", "200.0.0.0/7"], None), (None, ["11.11.0.0/16", "200.7.6.0/24"]),
+            (["200.0.0.0/5"], ["10.9.0.0/16"]), (["0.0.0.0/0"], None)]
+
+    def __init__(self, tier, seed):
+        self.tier, self.seed = tier, seed
+
+    def cases(self):
+        return [{"first": i, "B": B, "entry": e} for i in range(len(self.MENU)) for B in (0, 8)
+                for e in ("line", "FileAnonymizer")]
+
+    def _run(self, cfg, B, entry, text):
+        import io
+
+        from mc import seams
+        from netconan.anonymize_files import FileAnonymizer
+
+        pl, nl = cfg
+        with seams.capture_logs():
+            if entry == "line":
+                m = ipdom.mod()
+                an = m.IpAnonymizer("saltForTest", None if pl is None else list(pl), None if nl is None else list(nl),
+                                    preserve_suffix=B)
+                return "".join(m.anonymize_ip_addr(an, ln, False) for ln in text.splitlines(True))
+            out = io.StringIO()
+            FileAnonymizer(anon_pwd=False, anon_ip=True, salt="saltForTest",
+                           preserve_prefixes=None if pl is None else list(pl),
+                           preserve_networks=None if nl is None else list(nl),
+                           preserve_suffix_v4=B, preserve_suffix_v6=B).anonymize_io(io.StringIO(text), out)
+            return out.getvalue()
+
+    def run(self, case):
+        from mc import seams
+
+        res = Res()
+        allp = sorted({p for pl, nl in self.MENU for p in (list(pl or []) + list(nl or []))} | set(DEFAULTS))
+        W = window_for(allp, self.seed)
+        text = "".join("a %s b\n" % refs.v4_text(a) for a in W)
+        first = self.MENU[case["first"]]
+        seconds = [case["second"]] if "second" in case else range(len(self.MENU))
+        for j in seconds:
+            second = self.MENU[j]
+            seams.restore_globals()
+            self._run(first, case["B"], case["entry"], text)
+            got = self._run(second, case["B"], case["entry"], text)
+            seams.restore_globals()
+            res.states += 1
+            res.transitions += 2
+            pl, nl = second
+            listed = list(DEFAULTS if pl is None else pl) + list(nl or [])
+            nets = [ipaddress.ip_network(p) for p in listed]
+            toks = [ln.split()[1] for ln in got.splitlines()]
+            res.nt((case["first"], j, case["B"], case["entry"]))
+            res.out(tuple(toks[:12]))
+            for a, tok in zip(W, toks):
+                res.evals += 1
+                v = int(ipaddress.IPv4Address(tok))
+                bad = [n for n in nets if (int(n.network_address) <= a <= int(n.broadcast_address)) !=
+                       (int(n.network_address) <= v <= int(n.broadcast_address))]
+                if bad and not refs.is_mask32(a):
+                    res.violation("membership-not-preserved-after-another-anonymizer|" + case["entry"],
+                                  "after lists %r, an anonymizer with lists %r (host bits %d): %s -> %s wrt %s" % (
+                                      first, second, case["B"], refs.v4_text(a), tok, bad[0]), dict(case, second=j))
+                    break
+        if "second" not in case:
+            res.samples.append({"first": first, "B": case["B"], "entry": case["entry"], "addresses": len(W)})
+        return res
+
+
 class SuffixWiringPart(Part):
     name = "host_bit_option_wiring"
     desc = "FileAnonymizer / anonymize_files() / main with every (v4 bits, v6 bits) pair: each family keeps its own count"
@@ -549,4 +621,4 @@ def parts(tier, seed):
     cli.name = "cli_private_and_listed_networks"
     cli.desc = "main() with --preserve-private-addresses / --preserve-addresses / --preserve-prefixes: outside stays outside"
     return [PrefixPart(tier, seed), HostBitsPart(tier, seed), LazyPart(tier, seed), WiringPart(tier, seed),
-            SuffixWiringPart(tier, seed), LongHistory(tier, seed), cli]
+            SuffixWiringPart(tier, seed), SecondAnonymizer(tier, seed), LongHistory(tier, seed), cli]
